@@ -35,6 +35,12 @@ pub fn binary<F: RawFloat, const FORMAT: u128>(num: &Number, lossy: bool) -> Ext
         exp: 0,
     };
 
+    // Early short-circuit, in case of literal 0: like the other moderate
+    // paths, since a zero mantissa cannot be normalized.
+    if num.mantissa == 0 {
+        return fp_zero;
+    }
+
     // Normalize our mantissa for simpler results.
     let ctlz = num.mantissa.leading_zeros();
     let mantissa = num.mantissa << ctlz;
